@@ -40,6 +40,7 @@ func propC01(c *Ctx) {
 	c.ruleLoops(reach)
 	c.ruleLockReentry()
 	c.ruleC14CycleGuard()
+	c.ruleCursorReadBounds()
 }
 
 // ---------- helpers: which functions are (inside) reachable declared functions ----------
@@ -3711,4 +3712,166 @@ func (c *Ctx) reachesLock(cg interface{}, start *ssa.Function, locking map[*type
 		return names[0]
 	}
 	return ""
+}
+
+// ---------- the scanner never reads ahead of the byte it was given without knowing the byte exists ----------
+
+// ruleCursorReadBounds: a step function is called for the byte at the cursor (or for the end of the input, at
+// cursor == size). Whatever it reads beyond that byte - data.Byte(cursor+k), k > 0 - may lie past the end: the read
+// has to be guarded, on every path, by a comparison that puts cursor+k below the size.
+func (c *Ctx) ruleCursorReadBounds() {
+	r := c.R
+	r.Rule("C01-CURSOR-READ-BOUNDS", "in package scanner every indexed read of the input ahead of the cursor (Byte(i) on the data of the scanner with i = cursor + k, k > 0) is dominated by the true edge of a comparison that bounds cursor + k by the size of the input (cursor+k < size, cursor+k <= size-1, and the mirrored and negated forms): the step function is handed the byte at the cursor, nothing says that a next one exists", 1)
+	pk := c.P.Pkg("scanner")
+	if pk == nil {
+		r.Undecided("C01-CURSOR-READ-BOUNDS", "anchor", "package scanner not found", "")
+		return
+	}
+	isBytes := func(t types.Type) bool { return strings.HasSuffix(namedType(t), "jsight-schema-core/bytes.Bytes") }
+	n, ahead := 0, 0
+	for _, f := range c.libFns() {
+		if f.Pkg != pk {
+			continue
+		}
+		var fc *funcCFG
+		inspectWithStack(f.Decl.Body, func(nd ast.Node, stack []ast.Node) bool {
+			call, ok := nd.(*ast.CallExpr)
+			if !ok || len(call.Args) != 1 {
+				return true
+			}
+			cal := callee(pk, call)
+			sel, isSel := ast.Unparen(call.Fun).(*ast.SelectorExpr)
+			if cal == nil || !isSel || cal.Name() != "Byte" || !isBytes(pk.TypesInfo.TypeOf(sel.X)) || fieldSel(pk, sel.X) == nil {
+				return true
+			}
+			n++
+			base, off, ok := affineOf(f, call.Args[0])
+			if !ok || base == nil || fieldSel(pk, base) == nil || off <= 0 {
+				return true
+			}
+			ahead++
+			baseStr := exprString(base)
+			if fc == nil {
+				fc = c.cfgOf(f)
+			}
+			key := fmt.Sprintf("%s | %s", f.Name(), exprString(call))
+			// size expressions: an integer field of the scanner (dataSize) or a Len/LenIndex call on the data
+			isSize := func(e ast.Expr) (int64, bool) {
+				b, o, ok := affineOf(f, e)
+				if !ok || b == nil {
+					return 0, false
+				}
+				if cl, isCall := ast.Unparen(b).(*ast.CallExpr); isCall {
+					if g := callee(pk, cl); g != nil && (g.Name() == "Len" || g.Name() == "LenIndex") {
+						return o, true
+					}
+					if id, ok := cl.Fun.(*ast.Ident); ok && id.Name == "len" {
+						return o, true
+					}
+				}
+				if fv := fieldSel(pk, b); fv != nil && exprString(b) != baseStr {
+					if bt, ok := fv.Type().Underlying().(*types.Basic); ok && bt.Info()&types.IsInteger != 0 {
+						return o, true
+					}
+				}
+				return 0, false
+			}
+			bounds := func(cond ast.Expr, trueEdge bool) bool {
+				be, ok := ast.Unparen(cond).(*ast.BinaryExpr)
+				if !ok {
+					return false
+				}
+				op, l, rr := be.Op, be.X, be.Y
+				if _, isS := isSize(l); isS { // mirror: size OP cursor
+					l, rr = rr, l
+					switch op {
+					case token.LSS:
+						op = token.GTR
+					case token.GTR:
+						op = token.LSS
+					case token.LEQ:
+						op = token.GEQ
+					case token.GEQ:
+						op = token.LEQ
+					}
+				}
+				if !trueEdge { // negate
+					switch op {
+					case token.LSS:
+						op = token.GEQ
+					case token.GEQ:
+						op = token.LSS
+					case token.LEQ:
+						op = token.GTR
+					case token.GTR:
+						op = token.LEQ
+					default:
+						return false
+					}
+				}
+				lb, lo, ok1 := affineOf(f, l)
+				so, ok2 := isSize(rr)
+				if !ok1 || !ok2 || lb == nil || exprString(lb) != baseStr {
+					return false
+				}
+				// cursor + lo  <  size + so   =>  cursor + off < size  iff  off <= lo - so
+				switch op {
+				case token.LSS:
+					return off <= lo-so
+				case token.LEQ:
+					return off <= lo-so-1
+				}
+				return false
+			}
+			// the guard may stand in the same expression: <bound> && Byte(cursor+k), !<bound> || Byte(cursor+k)
+			inExpr := false
+			var child ast.Node = call
+			for i := len(stack) - 1; i >= 0 && !inExpr; i-- {
+				if be, ok := stack[i].(*ast.BinaryExpr); ok && (be.Op == token.LAND || be.Op == token.LOR) && be.Y == child {
+					for _, a := range impliedAtoms(be.X, be.Op == token.LAND) {
+						if bounds(a.e, a.holds) {
+							inExpr = true
+						}
+					}
+				}
+				if _, isExpr := stack[i].(ast.Expr); !isExpr {
+					break
+				}
+				child = stack[i]
+			}
+			bounded := inExpr || fc.establishedAt(call, bounds, func(nd ast.Node) bool {
+				// the cursor moves
+				moved := false
+				ast.Inspect(nd, func(m ast.Node) bool {
+					switch x := m.(type) {
+					case *ast.AssignStmt:
+						for _, l := range x.Lhs {
+							if exprString(ast.Unparen(l)) == baseStr {
+								moved = true
+							}
+						}
+					case *ast.IncDecStmt:
+						if exprString(ast.Unparen(x.X)) == baseStr {
+							moved = true
+						}
+					}
+					return true
+				})
+				return moved
+			})
+			if bounded {
+				r.Ok("C01-CURSOR-READ-BOUNDS", key, "the read ahead is bounded by the size of the input on every path", c.pos(call.Pos()))
+			} else {
+				r.Bad("C01-CURSOR-READ-BOUNDS", key, fmt.Sprintf("the input is read %d byte(s) ahead of the cursor with nothing that says the byte exists: when the byte at the cursor is the last one of a file, the index is out of range and the scan panics", off), c.pos(call.Pos()))
+			}
+			return true
+		})
+	}
+	if n == 0 {
+		r.Undecided("C01-CURSOR-READ-BOUNDS", "sites", "no Byte() read of the scanner's data found (the read of the current byte in Next on the pinned tree)", "")
+		return
+	}
+	if ahead == 0 {
+		r.Ok("C01-CURSOR-READ-BOUNDS", "package scanner", fmt.Sprintf("%d indexed reads of the input, none ahead of the cursor", n), "")
+	}
 }
